@@ -224,6 +224,25 @@ theorem listing_exact (fs : Fs) (hwf : WF fs) (dir : Bytes) (d : CPath) (hpp : P
       List.Pairwise (fun a b : Name × Bool => a.1 ≠ b.1) l :=
   dirList_plain fs hwf dir d hpp hg
 
+/-- Directory::purge answers what Directory::unlink answers and, like it, never adds an entry (afterwards it
+    only removes parent directories that `rmdir` accepts, i.e. empty ones). -/
+theorem purge_answers_like_unlink (fs : Fs) (path : Bytes) (recursive : Bool) :
+    (dirPurge fs path recursive).2 = (dirUnlinkTop fs path recursive).2 ∧ NoNew fs (dirPurge fs path recursive).1 :=
+  dirPurge_spec fs path recursive
+
+/-- File::getAbsolutePath returns an absolute path: the argument itself when it is absolute, otherwise the
+    working directory, `/`, and the argument. -/
+theorem absolute_path_spec (p : Bytes) :
+    isAbsolutePath (getAbsolutePath p) = true ∧
+    (isAbsolutePath p = true → getAbsolutePath p = p) ∧
+    (isAbsolutePath p = false → getAbsolutePath p = [47, 115] ++ [47] ++ p) := by
+  unfold getAbsolutePath
+  by_cases h : isAbsolutePath p = true
+  · simp [h]
+  · have h' : isAbsolutePath p = false := by simpa using h
+    simp only [h', Bool.false_eq_true, if_false]
+    exact ⟨by rfl, fun hh => absurd hh (by simp), fun _ => trivial⟩
+
 /-- File::rename(from, to, false) of a DIRECTORY that reports success (world satisfying the invariant of all
     histories): either source and destination are the same entry, or the whole subtree now hangs at the
     destination `pt` (`get (pt ++ r) = old get (pf ++ r)`), nothing is left below the source, and every
